@@ -41,11 +41,12 @@ impl Sub for Seq {
         (cfg_strategy(&DIRS), prop::collection::vec(op_strategy(true), 1..60)).prop_map(|(cfg, ops)| SeqCase { cfg, ops }).boxed()
     }
     fn mandatory_labels(&self, _t: Tier) -> Vec<&'static str> {
-        vec!["same_txn_delete_hit", "rollback_with_work", "abort_with_work", "merge_between_commits", "threads>=2", "segments>=3", "flush_every", "sorted", "dir:Mmap", "dir:Sim", "reopen", "delete_all"]
+        vec!["same_txn_delete_hit", "rollback_with_work", "abort_with_work", "merge_between_commits", "threads>=2", "segments>=3", "flush_every", "sorted", "dir:Mmap", "dir:Sim", "reopen", "delete_all", "memory_budget_cut"]
     }
     fn run(&self, c: &SeqCase, cx: &Ctx) -> CaseResult {
         let mut env = Env::new(c.cfg.clone())?;
         env.check_quiescence = false; // the no-orphan predicate belongs to C10 (same histories, props/c10.rs)
+        env.allow_big = true;
         for op in &c.ops {
             env.apply(op, cx)?;
         }
@@ -64,6 +65,7 @@ impl Sub for Seq {
         cx.label(&format!("policy:{:?}", match c.cfg.policy { Policy::LogSmall(_) => "LogSmall".to_string(), p => format!("{p:?}") }));
         cx.label_if(st.reopen > 0, "reopen");
         cx.label_if(st.delete_all > 0, "delete_all");
+        cx.label_if(st.big_runs > 0, "memory_budget_cut");
         cx.count("commits_verified", st.commits as u64);
         let nontrivial = st.same_txn_delete_hits > 0
             || st.rollbacks_with_work > 0
